@@ -6,6 +6,7 @@ package models
 import (
 	"encoding/binary"
 	"io"
+	"net/http"
 )
 
 // BinaryRead models encoding/binary.Read for the data kinds hc passes
@@ -93,3 +94,10 @@ var errSyntax = errorString("strconv: invalid syntax")
 type errorString string
 
 func (e errorString) Error() string { return string(e) }
+
+// HTTPError models net/http.Error: header, status, body.
+func HTTPError(w http.ResponseWriter, msg string, code int) {
+	w.Header().Set("Content-Type", "text/plain; charset=utf-8")
+	w.WriteHeader(code)
+	w.Write([]byte(msg + "\n"))
+}
